@@ -44,6 +44,34 @@ theorem C14_session_failure_permanent (cfg : Cfg) (s0 : Sess) (sc : Script)
   | stop r => rw [hp] at h hw; exact h hf hw
   | go sec f3 w => rw [hp] at h; rw [h] at hf; cases hf
 
+private theorem phase1_mechgate (cfg : Cfg) (s0 : Sess) (sc : Script) :
+    match phase1 cfg s0 sc with
+    | .stop r => mechGateOk sc r.writes = true
+    | .go _ _ w => mechGateOk sc w = true := by
+  phase1_split [mechGateOk, featuresAtAuth, tlsNegotiated]
+
+private theorem afterAuth_no_auth (s : Sess) (sec : Bool) (f3 : Features) (sc : Script) :
+    ((afterAuth s sec f3 sc).writes.any (fun w => w.kind == .auth)) = false := by
+  unfold afterAuth
+  simp only
+  split <;> (try split) <;> (try split) <;> (try split) <;> (try split) <;> (try split) <;> (try split) <;>
+    simp [List.any_append] <;> (try split) <;> simp [List.any_append]
+
+/-- **Only an advertised mechanism is used; with no common mechanism nothing is sent** - at session level, for every
+server script: an `<auth/>` is written only if the features in force at that moment (after the TLS restart when TLS
+was negotiated) offer a mechanism the credential supports. A mechanism list remembered from an earlier stream or
+connection does not count. -/
+theorem C14_session_mech_gate (cfg : Cfg) (s0 : Sess) (sc : Script) :
+    mechGateOk sc (negotiate cfg s0 sc).writes = true := by
+  have h := phase1_mechgate cfg s0 sc
+  unfold negotiate
+  cases hp : phase1 cfg s0 sc with
+  | stop r => rw [hp] at h; exact h
+  | go sec f3 w =>
+    rw [hp] at h
+    simp only [mechGateOk, List.any_append, afterAuth_no_auth, Bool.or_false] at h ⊢
+    exact h
+
 -- non-vacuity: a server that answers <failure/> and would go on answering
 example : (negotiate ⟨true⟩ ⟨false, "", 0, "", false⟩
     { conn := .ok, feat1 := some ⟨false, true, false, false⟩, tlsReply := .proceed, tlsOk := true, open2 := true,
@@ -55,3 +83,4 @@ end XmppVerif.Props.C14Neg
 
 #print axioms XmppVerif.Props.C14Neg.C14_session_only_success
 #print axioms XmppVerif.Props.C14Neg.C14_session_failure_permanent
+#print axioms XmppVerif.Props.C14Neg.C14_session_mech_gate
